@@ -335,7 +335,7 @@ def run(prog, rep, tier):
                        "fronts), all design parameters and the population are forwarded by name, the sampling pipeline of the eight configuration classes is the required "
                        "sequence with self.rng at every step, and the cross-map index generators start each level correctly. The exchange search is checked by C17-R1.")
     rep.not_decided = ["that an exact optimiser picks the best candidates; permutation equivariance; balance within one share (runtime / C17's undecided clauses)"]
-    rep.only_rules = {"R1-select", "R2-pipeline", "R3-xmap", "R1-outcross", "R4-ctor"}
+    rep.only_rules = {"R1-select", "R2-pipeline", "R3-xmap", "R1-outcross", "R4-ctor", "R2-tiles"}
     for r, n in (("R1-select", 20), ("R2-pipeline", 8), ("R3-xmap", 3), ("R1-outcross", 2), ("R4-ctor", 50)):
         rep.floor(r, n)
     check_select(prog, rep)
@@ -343,3 +343,4 @@ def run(prog, rep, tier):
     check_xmap(prog, rep)
     check_ctor_forwarding(prog, rep)
     c17.check_outcross(prog, rep)
+    c17.check_tiled(prog, rep)
